@@ -4,7 +4,7 @@
    computation over the regenerated lists. *)
 From Coq Require Import List ZArith NArith Bool Lia PArith FMapPositive Sorting.Permutation.
 From Pcfg Require Import Str Multiword Detect Segment SegCorr DetectProofsStr DetectProofsDrive DetectProofsSimple
-     DetectProofsMw DetectProofsSeg DetectProofsWeb DetectProofsKbd DetectProofsCount DetectProofsPipe.
+     DetectProofsMw DetectProofsSeg DetectProofsWeb DetectProofsKbd DetectProofsCount DetectProofsAdj DetectProofsPipe.
 From PcfgGen Require Import Consts_gen Unicode_gen.
 Import ListNotations.
 Open Scope Z_scope.
@@ -83,7 +83,7 @@ Definition c_counters_ok := counters_ok c_isupper c_lower.
 Theorem parse_c_full :
   forall m pw, pw <> [] ->
   exists r, parse_c m pw = POk r /\ tiles c_pm pw (p_sections r) /\ Forall c_sound (p_sections r) /\
-            Forall (fun y => snd y <> None) (p_sections r) /\ c_counters_ok r.
+            Forall (fun y => snd y <> None) (p_sections r) /\ c_counters_ok r /\ no_adj (isC 6) (p_sections r).
 Proof.
   intros m pw Hne. unfold parse_c, parse_gen. rewrite side_lower_aligned.
   apply (parse_full c_isalpha c_isdigit c_isupper c_lower c_kbs kb_false_positive_words c_min_run tld_list
@@ -99,8 +99,17 @@ Theorem parse_c_ok :
             Forall (fun y => snd y <> None) (p_sections r).
 Proof. intros m pw H. destruct (parse_c_full m pw H) as (r & H1 & H2 & H3 & H4 & _). eauto. Qed.
 
+(* no two digit sections are adjacent: a digit section is a maximal digit run *)
+Theorem parse_c_digit_maximal : forall m pw r, pw <> [] -> parse_c m pw = POk r ->
+  forall a x y b, p_sections r = a ++ x :: y :: b -> isC 6 x = true -> isC 6 y = false.
+Proof.
+  intros m pw r Hne Er a x y b Es Hx. destruct (parse_c_full m pw Hne) as (r' & Er' & _ & _ & _ & _ & Hn).
+  rewrite Er in Er'. injection Er' as <-. rewrite Es in Hn. clear -Hn Hx.
+  induction a as [|z a IH]; simpl in Hn; [|apply IH; tauto]. destruct Hn as (H & _). exact (H Hx).
+Qed.
+
 Theorem parse_c_counters : forall m pw, pw <> [] -> exists r, parse_c m pw = POk r /\ c_counters_ok r.
-Proof. intros m pw H. destruct (parse_c_full m pw H) as (r & H1 & _ & _ & _ & H5). eauto. Qed.
+Proof. intros m pw H. destruct (parse_c_full m pw H) as (r & H1 & _ & _ & _ & H5 & _). eauto. Qed.
 
 (* a whole training pass: one parser object, the passwords in order *)
 Theorem parse_c_counters_fold : forall m pws, Forall (fun pw => pw <> []) pws ->
